@@ -393,7 +393,7 @@ pub fn run(ctx: &mut Ctx) {
     // the quick tier takes 3 of the status bytes and 2 of the interrupt-flag sets: only thorough covers the stated space
     ctx.exhaustive = full;
     ctx.rule = format!(
-        "(VERIF_SEED does not influence this check: every case is enumerated) exhaustive enumeration on chip doubles (SX1262, SX1276, SX1272) whose 256-byte buffer/FIFO holds a position-dependent pattern and wraps: explicit header: every reported length 0..=255 x every offset 0..=255 x caller buffer sizes {{0,1,12,64,255,256}} x {{status bytes (SX126x), kind path}} / {{interrupt-flag sets x Single/Continuous, LoRa::rx and get_rx_result}} / {{LorawanRadio::rx_single, rx_continuous}}; implicit header (kind and LoRa paths): every configured length 0..=255 x every offset x the 6 buffer sizes x decoy reported lengths {{0, 255, configured+1}}. {} HAND-OVER to the MAC: authentic downlinks (reference codec) of 13..=255 bytes reported by the chip double at several offsets (incl. wrap-around) in RX1 of a real async_device::Device on top of LorawanRadio with radio buffers of 64, 255 and 256 bytes; a frame that fits must be delivered with exactly the plaintext that was sent, a longer one must give an error or no downlink. One evaluation = one fetch into a canary-filled buffer (or one such uplink+downlink transaction). Non-trivial (distinct by construction): effective length > buffer, or offset+length > 256 (wrap), or length 0, or an error status / CRC-error / no-RxDone interrupt set",
+        "(VERIF_SEED does not influence this check: every case is enumerated) exhaustive enumeration on chip doubles (SX1262, SX1276, SX1272) whose 256-byte buffer/FIFO holds a position-dependent pattern and wraps: explicit header: every reported length 0..=255 (configured maximum 255, length-1 and length/2) x every offset 0..=255 x caller buffer sizes {{0,1,12,64,255,256}} x {{status bytes (SX126x), kind path}} / {{interrupt-flag sets x Single/Continuous, LoRa::rx and get_rx_result}} / {{LorawanRadio::rx_single, rx_continuous}}; implicit header (kind and LoRa paths): every configured length 0..=255 x every offset x the 6 buffer sizes x decoy reported lengths {{0, 255, configured+1}}. {} HAND-OVER to the MAC: authentic downlinks (reference codec) of 13..=255 bytes reported by the chip double at several offsets (incl. wrap-around) in RX1 of a real async_device::Device on top of LorawanRadio with radio buffers of 64, 255 and 256 bytes; a frame that fits must be delivered with exactly the plaintext that was sent, a longer one must give an error or no downlink. One evaluation = one fetch into a canary-filled buffer (or one such uplink+downlink transaction). Non-trivial (distinct by construction): effective length > buffer, or offset+length > 256 (wrap), or length 0, or an error status / CRC-error / no-RxDone interrupt set",
         if full { "thorough: 12 status bytes (all 8 command-status values), 5 interrupt-flag sets." } else { "quick: 3 status bytes (good, execution failure, timeout), 2 interrupt-flag sets." }
     );
     ctx.assumptions = vec![
@@ -451,11 +451,14 @@ pub fn run(ctx: &mut Ctx) {
                     if k % n as u64 != ti as u64 {
                         continue;
                     }
-                    let mut decoys: Vec<u8> = if implicit { vec![0, 255, l.wrapping_add(1)] } else { vec![l] };
+                    // implicit header: the configured length counts, the reported one is a decoy;
+                    // explicit header: the reported length counts, the configured maximum is the decoy
+                    // (255 as the adapter sets it, and maxima below the packet actually reported)
+                    let mut decoys: Vec<u8> = if implicit { vec![0, 255, l.wrapping_add(1)] } else { vec![255, l.saturating_sub(1), l / 2] };
                     decoys.sort();
                     decoys.dedup();
                     for &rep in decoys.iter() {
-                        let (cfg_len, len) = if implicit { (l, rep) } else { (255, l) };
+                        let (cfg_len, len) = if implicit { (l, rep) } else { (rep, l) };
                         for off in 0..=255u8 {
                             for &buf in BUF_SIZES.iter() {
                                 // kind path x status bytes
@@ -470,7 +473,7 @@ pub fn run(ctx: &mut Ctx) {
                                     go(Case { chip, path: 2, implicit, cfg_len, len, off, buf, status: STATUS_OK, irq, continuous: false }, st, &mut rig);
                                 }
                                 // LoRaWAN adapter (explicit only)
-                                if !implicit {
+                                if !implicit && cfg_len == 255 {
                                     for &irq in irqs.iter() {
                                         go(Case { chip, path: 3, implicit, cfg_len, len, off, buf, status: STATUS_OK, irq, continuous: false }, st, &mut rig);
                                         go(Case { chip, path: 4, implicit, cfg_len, len, off, buf, status: STATUS_OK, irq, continuous: true }, st, &mut rig);
